@@ -3,9 +3,13 @@ use std::path::PathBuf;
 
 fn main() {
     let args: Vec<String> = std::env::args().skip(1).collect();
-    if args.len() < 2 {
+    if args.len() < 2 && args.first().map(|a| a != "gen-fuzz-seeds").unwrap_or(true) {
         eprintln!("usage: verif <Cxx> <quick|thorough> | verif <Cxx> --replay <file>");
         std::process::exit(2);
+    }
+    if args[0] == "gen-fuzz-seeds" {
+        harness::fuzz::write_seeds(&PathBuf::from(std::env::var("VERIF_ROOT").unwrap_or_else(|_| "/verif".into())));
+        return;
     }
     let prop = args[0].clone();
     let root = PathBuf::from(std::env::var("VERIF_ROOT").unwrap_or_else(|_| "/verif".into()));
